@@ -47,7 +47,7 @@ var c02Hand = []string{
 	"{{ 1 % 0 }}", "{{ 1 // 0 }}", "{{ 1 / 0 }}", "{{ x % z }}", "{{ 5..1 }}", "{{ (0/0)..3 }}", "{{ 1..2.5 }}", "{{ (-2)..2 }}", "{{ 3..3 }}", "{{ 'a'..'e' }}",
 	"{% for i in arr if i > 1 %}{{ i }}{% endfor %}", "{% for i in arr if false %}{{ i }}{% else %}none{% endfor %}",
 	"{{ m[1] }}", "{{ m[null] }}", "{{ m[true] }}", "{{ {(s):1}[1] }}", "{{ {'a':1}[0] }}", "{{ mi['x'] }}", "{{ mi[1.5] }}", "{{ arr['x'] }}", "{{ arr[null] }}",
-	"{{ obj.Add(1, 2) }}", "{{ obj.Add('a', null) }}", "{{ obj.Add(1) }}", "{{ obj.NilFunc() }}", "{{ obj.hidden }}", "{{ obj.TakesPtr(null) }}", "{{ obj.Concat(1, 2) }}", "{{ np.Name }}", "{{ np.ValueMethod() }}",
+	"{{ obj.Add(1, 2) }}", "{{ obj.Add('a', null) }}", "{{ obj.Add(1) }}", "{{ obj.NilFunc() }}", "{{ obj.hidden }}", "{{ obj.hiddenFn }}", "{{ obj.hiddenFn() }}", "{% if obj.hiddenFn %}y{% endif %}{{ obj.hiddenNil() }}", "{{ obj['hiddenFn'] }}{{ obj.Inner.hiddenFn }}", "{{ obj.TakesPtr(null) }}", "{{ obj.Concat(1, 2) }}", "{{ np.Name }}", "{{ np.ValueMethod() }}",
 	"{{ s|capitalize }}", "{{ ''|capitalize }}", "{{ []|first }}", "{{ []|last }}", "{{ ''|first }}", "{{ arr|first }}", "{{ parr|first }}", "{{ parr|last }}", "{{ parr|reverse }}", "{{ []|reverse }}",
 	"{{ arr|batch(0) }}", "{{ arr|batch(2, 'x')|length }}", "{{ 3.7|round(1, 'floor') }}", "{{ 1|round(400) }}", "{{ 'now'|date('Y') }}", "{{ 5|date('Y-m-d') }}", "{{ m|keys|join(',') }}", "{{ m|merge(arr) }}", "{{ arr|merge(m)|length }}",
 	"{{ s|replace({'a': 'b'}) }}", "{{ s|replace(1) }}", "{{ arr|join }}", "{{ obj|json_encode }}", "{{ fnv|json_encode }}", "{{ m|length }}", "{{ null|length }}", "{{ s|slice(1) }}",
